@@ -8,6 +8,7 @@ merge is monotone, so every survivor eventually *hears* the earliest cut-off —
 property fails is recorded as a theorem about the model: adopting an earlier cut-off never lowers
 the local `last_frame` of the dropped player.
 -/
+import GgrsModel.Model.Inventory
 import GgrsModel.Model.P2P
 
 namespace Ggrs.Endpoint
